@@ -1,7 +1,7 @@
 (* Facts about the word vocabulary of Words.v: truncation is reduction modulo 2^32 / 2^64,
    a reflective normaliser for nested add32 sums, a bitwise-identity tactic, list-update and
    length lemmas, and the bit-count / residue arithmetic used by the streaming proofs. *)
-From Coq Require Import Arith NArith ZArith List Lia ZifyNat ZifyN.
+From Coq Require Import Arith NArith ZArith List Lia ZifyNat ZifyN Bool.
 From LCP Require Import Alg.Words.
 Import ListNotations.
 Local Open Scope N_scope.
@@ -163,4 +163,74 @@ Lemma count_step_base base n len :
   w64 ((base + 8 * n) mod M64 + w64 (N.shiftl len 3)) = (base + 8 * (n + len)) mod M64.
 Proof.
   rewrite !w64_mod, N.shiftl_mul_pow2. change (2 ^ 3) with 8. unfold M64. lia.
+Qed.
+
+(* ---- the arithmetic meaning of the byte decoders and rotations (the vocabulary shared by the
+        models and the specs), on bytes / 32-bit words ---- *)
+Lemma testbit_small lo k n : lo < 2 ^ k -> k <= n -> N.testbit lo n = false.
+Proof.
+  intros Hlo Hkn. destruct (N.eq_dec lo 0) as [->|Hnz]; [apply N.bits_0|].
+  apply N.bits_above_log2. apply N.log2_lt_pow2; [lia|].
+  apply N.lt_le_trans with (2 ^ k); [exact Hlo|]. apply N.pow_le_mono_r; lia.
+Qed.
+
+Lemma lor_shiftl_add lo hi k : lo < 2 ^ k -> N.lor lo (N.shiftl hi k) = lo + hi * 2 ^ k.
+Proof.
+  intros Hlo. rewrite N.shiftl_mul_pow2.
+  assert (Hd : N.land lo (hi * 2 ^ k) = 0).
+  { apply N.bits_inj. intros n. rewrite N.land_spec, N.bits_0.
+    destruct (N.lt_ge_cases n k) as [Hn|Hn].
+    - rewrite N.mul_pow2_bits_low by exact Hn. apply andb_false_r.
+    - rewrite (testbit_small lo k n Hlo Hn). reflexivity. }
+  rewrite <- N.lxor_lor by exact Hd. symmetry. apply N.add_nocarry_lxor. exact Hd.
+Qed.
+
+Lemma be32dec4_arith p0 p1 p2 p3 : p0 < 256 -> p1 < 256 -> p2 < 256 -> p3 < 256 ->
+  be32dec4 p0 p1 p2 p3 = p0 * 16777216 + p1 * 65536 + p2 * 256 + p3.
+Proof.
+  intros H0 H1 H2 H3. unfold be32dec4.
+  rewrite (lor_shiftl_add p3 p2 8) by (change (2 ^ 8) with 256; exact H3).
+  rewrite (lor_shiftl_add _ p1 16) by (change (2 ^ 8) with 256; change (2 ^ 16) with 65536; lia).
+  rewrite (lor_shiftl_add _ p0 24) by (change (2 ^ 8) with 256; change (2 ^ 16) with 65536; change (2 ^ 24) with 16777216; lia).
+  change (2 ^ 8) with 256; change (2 ^ 16) with 65536; change (2 ^ 24) with 16777216. lia.
+Qed.
+
+Lemma le32dec4_arith p0 p1 p2 p3 : p0 < 256 -> p1 < 256 -> p2 < 256 -> p3 < 256 ->
+  le32dec4 p0 p1 p2 p3 = p0 + p1 * 256 + p2 * 65536 + p3 * 16777216.
+Proof.
+  intros H0 H1 H2 H3. unfold le32dec4.
+  rewrite (lor_shiftl_add p0 p1 8) by (change (2 ^ 8) with 256; exact H0).
+  rewrite (lor_shiftl_add _ p2 16) by (change (2 ^ 8) with 256; change (2 ^ 16) with 65536; lia).
+  rewrite (lor_shiftl_add _ p3 24) by (change (2 ^ 8) with 256; change (2 ^ 16) with 65536; change (2 ^ 24) with 16777216; lia).
+  change (2 ^ 8) with 256; change (2 ^ 16) with 65536; change (2 ^ 24) with 16777216. lia.
+Qed.
+
+(* rotations of a 32-bit word, arithmetically *)
+Lemma rotr32_arith x n : x < M32 -> 0 < n < 32 ->
+  rotr32 x n = x / 2 ^ n + (x mod 2 ^ n) * 2 ^ (32 - n).
+Proof.
+  intros Hx Hn. unfold rotr32. rewrite w32_mod, N.shiftr_div_pow2, N.shiftl_mul_pow2.
+  assert (E : (x * 2 ^ (32 - n)) mod M32 = (x mod 2 ^ n) * 2 ^ (32 - n)).
+  { unfold M32. replace 4294967296 with (2 ^ n * 2 ^ (32 - n)) by (rewrite <- N.pow_add_r; replace (n + (32 - n)) with 32 by lia; reflexivity).
+    rewrite N.mul_mod_distr_r; [reflexivity| |]; apply N.pow_nonzero; discriminate. }
+  rewrite E.
+  replace ((x mod 2 ^ n) * 2 ^ (32 - n)) with (N.shiftl (x mod 2 ^ n) (32 - n)) by apply N.shiftl_mul_pow2.
+  rewrite lor_shiftl_add; [rewrite N.shiftl_mul_pow2; reflexivity|].
+  apply N.div_lt_upper_bound; [apply N.pow_nonzero; discriminate|].
+  rewrite <- N.pow_add_r. replace (n + (32 - n)) with 32 by lia. exact Hx.
+Qed.
+
+Lemma rotl32_arith x n : x < M32 -> 0 < n < 32 ->
+  rotl32 x n = x / 2 ^ (32 - n) + (x mod 2 ^ (32 - n)) * 2 ^ n.
+Proof.
+  intros Hx Hn. unfold rotl32. rewrite N.lor_comm, w32_mod, N.shiftr_div_pow2, N.shiftl_mul_pow2.
+  assert (E : (x * 2 ^ n) mod M32 = (x mod 2 ^ (32 - n)) * 2 ^ n).
+  { unfold M32. replace 4294967296 with (2 ^ (32 - n) * 2 ^ n)
+      by (rewrite <- N.pow_add_r; replace (32 - n + n) with 32 by lia; reflexivity).
+    rewrite N.mul_mod_distr_r; [reflexivity| |]; apply N.pow_nonzero; discriminate. }
+  rewrite E.
+  replace ((x mod 2 ^ (32 - n)) * 2 ^ n) with (N.shiftl (x mod 2 ^ (32 - n)) n) by apply N.shiftl_mul_pow2.
+  rewrite lor_shiftl_add; [rewrite N.shiftl_mul_pow2; reflexivity|].
+  apply N.div_lt_upper_bound; [apply N.pow_nonzero; discriminate|].
+  rewrite <- N.pow_add_r. replace (32 - n + n) with 32 by lia. exact Hx.
 Qed.
